@@ -128,7 +128,7 @@ def make_graph(rng, quick, hostile=False, clash=False, shape=None):
     ds = nsgen.serialise(g, rng, value_xml=parseprops.value_xml)
     return g, ds
 
-REG_REQS = []; REG_META = []; TXT_REQS = []; TXT_META = []; CAUSES_OF = {}
+REG_REQS = []; REG_META = []; TXT_REQS = []; TXT_META = []; CAUSES_OF = {}; RT_REQS = []; RT_META = []
 def correspondence(ctx, prop, rng, work, reqs, meta, G, tables, g, ci, inc_choices=(True, False)):
     outs = {}
     for uri in g.uris:
@@ -323,6 +323,21 @@ def run(ctx, prop):
                         if uri in G.namespaces: causes |= write_causes(G, tables, uri, outs.get((uri, True), ["ok", ""]))
                     for sig, detail in oracle_c05(work, G, tables, g, base[0]):
                         ctx.fail(("C05/known:" + "+".join(sorted(causes))) if causes else sig, dict(kind="roundtrip", files=files, vseed=vseed), sig + ": " + detail)
+                    # the same round trip executed INSIDE the model (write_text for every namespace, then parse_text_files on those texts and the
+                    # untouched base document) against the implementation's write-then-parse_xml_files, both reduced to (URI, identifier) level
+                    targets = [u for u in G.namespaces[1:] if u != "None"]
+                    wfiles = []; ok = True
+                    for i, uri in enumerate(targets):
+                        o = outs.get((uri, True)) or impl_write(copy.deepcopy(G), uri, True)
+                        if o[0] != "ok": ok = False; break
+                        wfiles.append(("w%02d.xml" % i, o[1]))
+                    if ok:
+                        rt_out, _ = parsecmp.impl_parse(work + "_rt", [base[0]] + wfiles, None)
+                        shutil.rmtree(work + "_rt", ignore_errors=True)
+                        E = uaconv.float_table(sorted(set(x for _, tx in wfiles for x in uaconv.texts_of_xml(tx.encode("utf-8"))))) + uaconv.gt_entries(["2.0", "1.0", "0.0"])
+                        RT_REQS.append([Sym("c05_roundtrip"), E, T0.isoformat(), "NOW", tables[:4], [[os.path.join(work + "_rt", base[0][0]), base[0][1]]],
+                                        [[u, os.path.join(work + "_rt", "w%02d.xml" % i)] for i, u in enumerate(targets)]])
+                        RT_META.append((ci, rt_out, bool(causes & {"raw-nodeid-attribute", "quote-in-attribute", "uri-unescaped", "empty-namespace", "namespace-without-base-use"})))
     finally:
         shutil.rmtree(work, ignore_errors=True)
     ans = vlib.run_model(reqs, shards=8)
@@ -362,6 +377,19 @@ def run(ctx, prop):
             ctx.fail("C07/ill-formed-inside-theorem-domain", dict(kind="write", files=None, uri=uri, inc=inc), str(e)[:150])
     ctx.notes["cases_in_domain_of_C07_written_text_wellformed"] = "%d of %d" % (nclean, len(TXT_REQS))
     del TXT_REQS[:]; del TXT_META[:]
+    if RT_REQS:
+        rtans = vlib.run_model(RT_REQS, shards=8)
+        n_rt = 0
+        for (ci, rt_out, unclean), ra in zip(RT_META, rtans):
+            mo = parsecmp.dec_model(ra)
+            if mo[0] == "err" and mo[1] == "Unsupported": continue
+            n_rt += 1
+            io = parseprops.denotation(rt_out) if rt_out[0] == "ok" else ["err"]
+            mm = parseprops.denotation(mo) if mo[0] == "ok" else ["err"]
+            if io != mm:
+                ctx.disagree("out-of-domain" if unclean else "roundtrip", dict(case=ci), "implementation write+parse: %s" % (str(io)[:300]), "model write_text+parse_text_files: %s" % (str(mm)[:300]))
+        ctx.notes["round_trips_executed_in_the_model"] = n_rt
+        del RT_REQS[:]; del RT_META[:]
     uns = 0
     for (ci, uri, inc, out), a in zip(meta, ans):
         mo = dec_doc(a)
